@@ -43,6 +43,10 @@ def constructs(table, col):
         yield "Columns: %s\nFilter: %s = FOO bar" % (name, name)
         yield "Columns: %s\nFilter: %s ~ FOO" % (name, name)
         yield "Columns: name\nSort: %s FOO asc" % name
+        # variables the crash dataset has: A with a value, B as a name without a value (fewer values than names)
+        yield "Columns: %s\nFilter: %s = B x\nFilter: %s != A 1\nOr: 2" % (name, name, name)
+        yield "Columns: name\nSort: %s B desc\nSort: %s A asc" % (name, name)
+        yield "Stats: %s ~~ B ^x+$\nStats: %s = A 1" % (name, name)
 
 
 MALFORMED = [
